@@ -237,7 +237,8 @@ def c04(ctx):
 # ------------------------------------------------------------------------------------ C06
 
 def known_for(prop):
-    return [f for f in props.load_known().get("findings", []) if f.get("property") == prop]
+    return [f for f in props.load_known().get("findings", [])
+            if f.get("property") == prop or prop in f.get("properties", [])]
 
 
 @check("C06")
@@ -676,6 +677,160 @@ def c19(ctx):
                        "functions; And/Or with nil at random positions among up to 5 operands; both sides of the law are "
                        "rendered and compared (sql, args); distinct = (helper, condition, receiver+function program)")
     ctx.cov["samples"] = [{"kind": c["kind"], "cond": c["cond"], "program": c["desc"][:300]} for c in cases[:3]]
+
+
+# ------------------------------------------------------------------------------------ C07 / C08
+
+def shape_ok(toks, types):
+    """The token shape of the theorems (observer of Meta/Product.v), on lexer tokens; returns
+    'ok', 'kf-uescape' or 'bad'."""
+    o = "O0"
+    for t in toks:
+        k = t[0]
+        word = k == "W"
+        ue = word and bytes.fromhex(t[1:]).lower() == b"uescape"
+        seg = word or k == "Q"
+        useg = k == "U"
+        star = t == "C2a"
+        selfc = bytes.fromhex(t[1:]).decode("latin1") if k == "C" else None
+        if o in ("O0", "ODot"):
+            o = "SegU" if useg else "Seg" if seg else ("Star" if star and not types else "R")
+        elif o in ("Seg", "SegU"):
+            if selfc == ".":
+                o = "ODot"
+            elif ue:
+                o = "Ue" if o == "SegU" else "UeBad"
+            elif types and selfc == "(":
+                o = "T1"
+            elif types and selfc == "[":
+                o = "T4"
+            else:
+                o = "R"
+        elif o == "Star":
+            o = "UeBad" if ue else "R"
+        elif o == "Ue":
+            o = "Done" if k == "S" else "R"
+        elif o == "Done":
+            o = "T4" if types and selfc == "[" else "R"
+        elif o == "UeBad":
+            o = "KF" if k == "S" else "R"
+        elif o == "KF":
+            o = "KF" if types and (selfc in ("[", "]") or k == "N") else "R"
+        elif o == "T1":
+            o = "T2" if k == "N" else "R"
+        elif o == "T2":
+            o = "T3" if selfc == ")" else "R"
+        elif o == "T3":
+            o = "T4" if selfc == "[" else ("UeBad" if ue else "R")
+        elif o == "T4":
+            o = "T6" if selfc == "]" else ("T5" if k == "N" else "R")
+        elif o == "T5":
+            o = "T6" if selfc == "]" else "R"
+        elif o == "T6":
+            o = "T4" if selfc == "[" else "R"
+        else:
+            o = "R"
+    if o in ("Seg", "SegU", "Done") or (o == "Star" and not types) or (types and o in ("T3", "T6")):
+        return "ok"
+    return "kf-uescape" if o == "KF" else "bad"
+
+
+def pattern_check(ctx, which):
+    kind = "ident" if which == "C07" else "type"
+    props.check_props_file(ctx, f"Props/{which}.v")
+    cases = special_mode_cases(ctx, "c07", ["-n", "4000" if ctx.quick() else "200000",
+                                           "-stride", "8" if ctx.quick() else "1"])
+    cases = [c for c in cases if c["kind"] == kind]
+    strs = [bytes.fromhex(c["s"]) for c in cases]
+    trimmed = [s.strip(b" \t\n\v\f\r\x85\xa0") if kind == "ident" else s for s in strs]
+    # Go's TrimSpace is Unicode aware; ask the model only about what the library's matcher saw: the
+    # emitted text (for accepted names) or the string itself
+    probe = []
+    for c, s in zip(cases, strs):
+        probe.append(bytes.fromhex(c["sql"]) if (kind == "ident" and c["valid"]) else
+                     (s if kind == "type" else None))
+    idx = [i for i, p in enumerate(probe) if p is not None]
+    req = "validident" if kind == "ident" else "validtype"
+    ans = corr.model_answers([f"({req} s{probe[i].hex()})" for i in idx])
+    mism = []
+    for i, a in zip(idx, ans):
+        if (a == "T") != cases[i]["valid"]:
+            mism.append({"string_hex": probe[i].hex(), "go_regexp": cases[i]["valid"], "model_matcher": a})
+    ctx.obligation(f"correspondence: the model's derivative matcher agrees with Go's regexp on every tested string ({kind} pattern)",
+                   not mism, json.dumps(mism[:5]))
+    ctx.cov["traces_validated_against_impl"] = len(idx) - len(mism)
+    # direct evaluation: what is emitted for an accepted string lexes as the required shape
+    acc = [i for i, c in enumerate(cases) if c["valid"] and not c.get("panic")]
+    emitted = []
+    for i in acc:
+        c = cases[i]
+        sql = bytes.fromhex(c["sql"])
+        emitted.append(sql if kind == "ident" else sql[len(b"x::"):])
+    toks = lex_many(emitted, True)
+    known_hit = {}
+    ev = 0
+    listed = {k["id"]: k for k in known_for(which)}
+    classes = Counter()
+    for i, e, t in zip(acc, emitted, toks):
+        c = cases[i]
+        ev += 1
+        rep = {"input_hex": c["s"], "input": strs[i].decode("utf8", "replace"), "emitted": e.decode("utf8", "replace"),
+               "err": c.get("err"), "tokens": t}
+        if c.get("err"):
+            ctx.violation("the matcher accepts the string but rendering reports an error", rep)
+            continue
+        if kind == "ident" and e != strs[i].strip() and e.decode("utf8", "replace") != strs[i].decode("utf8", "replace").strip():
+            ctx.violation("the emitted text is not the trimmed input", rep)
+            continue
+        if kind == "type" and (e != strs[i] or not bytes.fromhex(c["sql"]).startswith(b"x::")):
+            ctx.violation("the emitted text is not the input", rep)
+            continue
+        cls = None
+        if t is not None:
+            r = shape_ok(t, kind == "type")
+            if r == "ok":
+                classes["shape-ok"] += 1
+                continue
+            if r == "kf-uescape":
+                cls = "D8-uescape-without-uident"
+        if cls is None and b"\x00" in e:
+            cls = "D9-name-NUL"
+        if cls is None and re.search(rb"(?<![0-9A-Za-z_$\x80-\xff])[Uu]&(?!\")", e):
+            cls = "D8-uamp-before-unquoted"
+        if cls is None:
+            ctx.violation("an accepted string is not emitted as a pure identifier path" if kind == "ident" else
+                          "an accepted cast type is not emitted as a pure type name", rep)
+            continue
+        classes[cls] += 1
+        known_hit.setdefault(cls, rep)
+    for cls, rep in sorted(known_hit.items()):
+        if cls in listed:
+            ctx.known.append(f"{cls} e.g. input {rep['input']!r} is accepted and emitted as {rep['emitted']!r}")
+        else:
+            ctx.violation(f"accepted string outside the safe shape ({cls})", rep)
+    ctx.cov["evaluations"] = len(cases)
+    ctx.cov["accepted_strings_lexed"] = ev
+    ctx.cov["distinct_nontrivial"] = len({c["s"] for c in cases if c["valid"]})
+    ctx.cov["input_distribution"] = {"accepted": len(acc), "rejected": len(cases) - len(acc), "classes_of_accepted": dict(classes)}
+    ctx.cov["rule"] = ("every ASCII character and every boundary code point of \\p{L} / \\p{Nd} (quick: every 8th) in 17 position "
+                       "classes, grammar-shaped names/types with prefixes, UESCAPE / modifier / array tails and byte mutations, "
+                       "names around the 63-character limit; Go's regexp (verif hook) vs the model's matcher on each; every "
+                       "accepted string is rendered and the emitted text lexed; distinct = accepted strings")
+    ctx.cov["samples"] = [{"input": strs[i].decode("utf8", "replace"), "emitted": emitted[k].decode("utf8", "replace")}
+                          for k, i in enumerate(acc[:3])]
+    ctx.assumptions.append("the theorem represents a non-ASCII rune by one byte >= 0x80 (the lexer treats all such bytes alike); "
+                           "token-level invalidity of Unicode escapes inside U&\"...\" is decided by PostgreSQL's parser, not its lexer")
+    ctx.assumptions.append("standard_conforming_strings = on (the default since 9.1) for the UESCAPE character literal")
+
+
+@check("C07")
+def c07(ctx):
+    pattern_check(ctx, "C07")
+
+
+@check("C08")
+def c08(ctx):
+    pattern_check(ctx, "C08")
 
 
 # ------------------------------------------------------------------------------------ C09
